@@ -78,7 +78,7 @@ class ProofCache():
         self.history = self.history[:index]
         self.states = self.states[:index+1]
         self.error = None
-        state = self.states[index]
+        state = copy.copy(self.states[index])
         for step in self.steps[index:]:
             self.history.extend(state.parse_steps([step]))
             self.states.append(copy.copy(state))
